@@ -1347,6 +1347,12 @@ def flag_loops(tree):
                 i += 1
 
 
+def _dotted_name(e):
+    while isinstance(e, ast.Attribute):
+        e = e.value
+    return isinstance(e, ast.Name)
+
+
 def forward_adjacent_temp(tree):
     """``x = E`` directly followed by ``T = x`` (T any target) where x is a plain local with no other
     use at all: ``T = E``."""
@@ -1379,6 +1385,19 @@ def forward_adjacent_temp(tree):
                             def visit_Name(self, n):
                                 return a.value if n.id == x and isinstance(n.ctx, ast.Load) else n
                         blk[i + 1] = _Sub().visit(b)
+                        del blk[i]
+                        continue
+                # ``x = E`` directly followed by the statement ``f(x, ...)`` / ``o.m(x, ...)`` (f, o.m dotted
+                # names: loading them has no effect), x the FIRST argument and used nowhere else:
+                # ``f(E, ...)`` -- same evaluation order
+                if isinstance(a, ast.Assign) and len(a.targets) == 1 and isinstance(a.targets[0], ast.Name) \
+                        and isinstance(b, ast.Expr) and isinstance(b.value, ast.Call) and b.value.args and \
+                        isinstance(b.value.args[0], ast.Name) and b.value.args[0].id == a.targets[0].id and \
+                        _dotted_name(b.value.func) and a.targets[0].id not in params:
+                    x = a.targets[0].id
+                    uses = [n for n in ast.walk(fn) if isinstance(n, ast.Name) and n.id == x]
+                    if len(uses) == 2:
+                        b.value.args[0] = a.value
                         del blk[i]
                         continue
                 # ``x = E`` directly followed by ``return x`` (no other use of x): ``return E``
